@@ -211,7 +211,7 @@ Theorem P_b_sound : forall c : case,
                            exists rest, c_outs c = OCtorErr :: rest)
   \/ holds (lookup_parse (c_parse c)) (c_cfg c) [] [] (c_ops c) (c_outs c).
 Proof.
-  intros c H. unfold P_b, spec_run in H.
+  intros c H. unfold P_b in H. apply andb_true_iff in H as [H _]. unfold P_b_main, spec_run in H.
   destruct (c_outs c) as [|x rest] eqn:Eo.
   - right. apply spec_ok_sound. exact H.
   - destruct x; try (right; apply spec_ok_sound; exact H).
@@ -237,5 +237,6 @@ Qed.
 Theorem agree_sound : forall c : case,
   agree c = true -> c_outs c = run (lookup_parse (c_parse c)) (c_cfg c) (c_ops c).
 Proof.
-  intros c H. unfold agree in H. apply (list_eqb_spec out_eqb out_eqb_spec) in H. symmetry. exact H.
+  intros c H. unfold agree in H. apply andb_true_iff in H as [H _]. unfold agree_main in H.
+  apply (list_eqb_spec out_eqb out_eqb_spec) in H. symmetry. exact H.
 Qed.
